@@ -123,7 +123,7 @@ def main(tier):
                              mb.BaseMatcher.node_path_to_only_nodes, mb.BaseMatcher.get_path, inmem.InMemMap.nodes_nbrto,
                              inmem.InMemMap.edges_nbrto)
     budget = 60 if tier == 'quick' else 900
-    res = gabs.run_all(rep, run_instance, instances(tier), budget, 16 * (100 if tier == 'quick' else 1500))
+    res = gabs.run_all(rep, run_instance, instances(tier), budget, 16 * (100 if tier == 'quick' else 900))
     ch = run_crosshair(tier)
     rep.extra['crosshair_node_path_to_only_nodes'] = ch
     if ch.get('refuted'):
